@@ -63,6 +63,7 @@ type Contract struct {
 	Replay   string          // replay adapter name
 	Schema   string          // schema this contract came from
 	Bounded  string          // if set: this contract is only a bounded check (label), not counted as proof
+	CallGhosts []LetDef      // instantiation of callees' ghosts at this function's call sites (callghost f.G = expr)
 	Theorem  *SpecFun        // standalone lemma (no function): the contract's only obligation is its universal closure
 	Base     string          // function key without the "@label" suffix of an instance contract
 	Binds    []LetDef        // instance contracts: parameters fixed to the value of a spec expression (bind p = expr)
@@ -599,6 +600,17 @@ func (cs *ContractSet) parseLines(lines []string, file, pkgPath, schemaDir strin
 				return fmt.Errorf("%s: ghost NAME TYPE", where)
 			}
 			cur.Ghosts = append(cur.Ghosts, [2]string{f[0], f[1]})
+		case "callghost":
+			// callghost CALLEE.G = EXPR: at calls of CALLEE (short function name) made by this function, the callee's
+			// ghost G (which its preconditions constrain) is instantiated with EXPR, evaluated over this function's
+			// parameters at entry; the callee's preconditions are then proved for that instance
+			eq := strings.Index(rest, "=")
+			if eq < 0 {
+				return fmt.Errorf("%s: callghost CALLEE.G = EXPR", where)
+			}
+			var e ast.Expr
+			e, err = ParseSpecExpr(strings.TrimSpace(rest[eq+1:]))
+			cur.CallGhosts = append(cur.CallGhosts, LetDef{Name: strings.TrimSpace(rest[:eq]), Src: rest[eq+1:], Expr: e})
 		case "casesplit":
 			// casesplit E1 | E2 | ...: every ensures obligation is proved once per case and once for "none of them"
 			for _, part := range splitTop(rest, "|") {
